@@ -808,6 +808,19 @@ class PropertiesDataBounds(PropertiesData):
 
         """
         # ------------------------------------------------------------
+        # Convert "other" to the type of "self" when types are
+        # ignored, so that the components tested below are those of
+        # the converted object
+        # ------------------------------------------------------------
+        pp = super()._equals_preprocess(
+            other, verbose=verbose, ignore_type=ignore_type
+        )
+        if pp is True or pp is False:
+            return pp
+
+        other = pp
+
+        # ------------------------------------------------------------
         # Check the properties and data
         # ------------------------------------------------------------
         if not super().equals(
